@@ -256,3 +256,158 @@ Theorem add_feature_refuted :
     f_spans rec <> abs_of_view v spans /\
     get_features pinned v [rec] None None true = Ok [].
 Proof. exact add_feature_refuted_lemma. Qed.
+
+(** * PHASE 2 - features of a sequence seen through an alignment
+
+    Model/AnnotAln.v transcribes [Alignment._get_seq_features] ([aln_feature]),
+    [Aligned.make_feature] ([aligned_make_feature]: the sequence-level Feature of
+    phase 1 re-mapped through the inverse of the row's indel map),
+    [get_projected_feature] ([projected_map]) and the alignment-level
+    [Feature.get_slice] on top of the C08 models of IndelMap / FeatureMap and the
+    C03 row model ([arow] = indel map x sequence view).  Vocabulary from C08:
+    [abs m] = the row's gap mask, [den fm] = what each cell of a FeatureMap reads
+    ([None] = lost), [compose], [inverse_den], [is_align_index k q a] = column [a]
+    of mask [k] holds residue number [q]; from C03: [RowWF], [row_str] = the row's
+    gapped string.  [number 0 k] numbers the residues of a mask; [cell_column]
+    relates one cell of the alignment-level map to one cell of the sequence-level
+    map; [ROK n] = C03 row invariant + DNA + [n] columns + the phase-1 view
+    invariant; [hist_ok] = slices [a:b] inside the current columns, and rc. *)
+From CG3 Require Import Model.IndelMap Model.FeatureMap Model.Aligned Model.AnnotAln Model.AnnotAlnRun.
+From CG3 Require Import Spec.IndelMapSpec Spec.FeatureMapSpec Spec.AlignedSpec Proofs.AnnotAlnProofs.
+
+(** the row's indel map read as a FeatureMap ([to_feature_map]): column -> sequence position *)
+Theorem row_map_reads_mask : forall m : imap, IndelMapSpec.WF m -> den (to_feature_map m) = number 0 (abs m).
+Proof. exact den_tfm. Qed.
+
+(** its inverse sends residue [q] to the C08 alignment index of [q] *)
+Theorem residue_column : forall (m : imap) (q : Z), IndelMapSpec.WF m -> 0 <= q < parent_length m ->
+  exists a, znth None (inverse_den (parent_length m) (den (to_feature_map m))) q = Some a /\
+    is_align_index (abs m) q a /\ znth None (den (to_feature_map m)) a = Some q.
+Proof. exact column_of_residue. Qed.
+
+(** [Aligned.make_feature] succeeds whenever the sequence-level [make_feature]
+    does; the map it returns is the composition with the inverse row map *)
+Theorem aligned_feature_map_spec : forall fx r spans minus fv,
+  IndelMapSpec.WF (amap r) -> parent_length (amap r) = vlen (sv (adata r)) -> 0 < vlen (sv (adata r)) ->
+  proper spans ->
+  Annot.make_feature fx (vlen (sv (adata r))) (is_reversed (sv (adata r))) spans minus = View.Ok fv ->
+  exists am, aligned_make_feature fx r spans minus = Ok (fv_minus fv, am) /\
+    den am = compose (inverse_den (parent_length (amap r)) (den (to_feature_map (amap r))))
+                     (den (fmap_of (vlen (sv (adata r))) (fv_map fv))) /\
+    fplen am = zlen (abs (amap r)) /\ in_parent am = true.
+Proof. exact aligned_feature_den. Qed.
+
+(** HEADLINE 5 (columns): cell by cell, the alignment-level feature is lost
+    exactly where the sequence-level feature is, and otherwise reads the
+    alignment column holding the residue the sequence-level feature reads.
+    Hence the columns it denotes are exactly the columns whose residue in that
+    row is a residue the feature denotes; gap columns of the row inside the
+    feature's span are NOT part of the map (as [Span.remap_with] over the
+    inverted map produces one span per ungapped block) - every gap layout *)
+Theorem aln_feature_columns_spec : forall fx r spans minus fv,
+  IndelMapSpec.WF (amap r) -> parent_length (amap r) = vlen (sv (adata r)) -> 0 < vlen (sv (adata r)) ->
+  proper spans ->
+  Annot.make_feature fx (vlen (sv (adata r))) (is_reversed (sv (adata r))) spans minus = View.Ok fv ->
+  exists am, aligned_make_feature fx r spans minus = Ok (fv_minus fv, am) /\
+    Forall2 (cell_column (abs (amap r))) (den am) (den (fmap_of (vlen (sv (adata r))) (fv_map fv))).
+Proof. exact aln_feature_columns. Qed.
+
+(** [get_projected_feature] onto a row [t]: cell [j] reads [t]'s sequence
+    position at the column cell [j] of the alignment feature reads, [None]
+    where the feature is lost or [t] has a gap there *)
+Theorem projected_feature_spec : forall t am, IndelMapSpec.WF (amap t) -> 0 < parent_length (amap t) ->
+  in_parent am = true -> fplen am = zlen (abs (amap t)) ->
+  exists pm, projected_map t am = Ok pm /\
+    den pm = compose (number 0 (abs (amap t))) (den am) /\ fplen pm = parent_length (amap t) /\ in_parent pm = true.
+Proof. exact projected_den. Qed.
+
+(** projected back onto its own row the alignment feature reads exactly the
+    positions of the sequence-level feature (whose slice is given by feature_slice_spec) *)
+Theorem own_row_projection : forall fx r spans minus fv,
+  IndelMapSpec.WF (amap r) -> parent_length (amap r) = vlen (sv (adata r)) -> 0 < vlen (sv (adata r)) ->
+  proper spans ->
+  Annot.make_feature fx (vlen (sv (adata r))) (is_reversed (sv (adata r))) spans minus = View.Ok fv ->
+  exists am pm, aligned_make_feature fx r spans minus = Ok (fv_minus fv, am) /\
+    projected_map r am = Ok pm /\
+    den pm = den (fmap_of (vlen (sv (adata r))) (fv_map fv)).
+Proof. exact own_row_roundtrip. Qed.
+
+(** string level: the characters of any mask-filled row at the columns of the
+    alignment-level cells are the residues at the positions of the sequence-level cells ... *)
+Theorem columns_hold_the_residues : forall k D dam dsub, residues k = zlen D ->
+  Forall2 (cell_column k) dam dsub ->
+  gather (fill k D) (somes dam) = gather D (somes dsub).
+Proof. exact columns_hold_residues. Qed.
+
+(** ... so the feature's slice of the sequence view is, up to the strand flip,
+    the row's gapped string read at the columns of the alignment-level feature:
+    degapping that restriction of the alignment to the row gives the sequence slice *)
+Theorem feature_columns_are_its_residues : forall fx r spans minus fv am,
+  RowWF r -> skind (adata r) = KDna -> contig (sv (adata r)) ->
+  zlen (parent (adata r)) = seq_len (sv (adata r)) -> proper spans ->
+  Annot.make_feature fx (vlen (sv (adata r))) (is_reversed (sv (adata r))) spans minus = View.Ok fv ->
+  Forall2 (cell_column (abs (amap r))) (den am) (den (fmap_of (vlen (sv (adata r))) (fv_map fv))) ->
+  get_slice_str (sv (adata r)) (parent (adata r)) fv =
+    View.Ok (let s := gather (row_str r) (somes (den am)) in if fv_minus fv then cmpl (rev s) else s).
+Proof. exact feature_columns_string. Qed.
+
+(** HEADLINE 6: [Alignment.get_features(seqid=row)] for one db record: returned
+    iff the bounding box overlaps / lies inside the absolute segment the row
+    displays; the map is the column image of the phase-1 Feature [fv] *)
+Theorem aln_get_features_spec : forall fx r f partial fv,
+  IndelMapSpec.WF (amap r) -> contig (sv (adata r)) ->
+  parent_length (amap r) = vlen (sv (adata r)) -> 0 < vlen (sv (adata r)) ->
+  spans_ok 0 (f_spans f) ->
+  feature_on_view fx (sv (adata r)) f = View.Ok fv ->
+  let v := sv (adata r) in
+  if db_match partial (parent_start v) (parent_stop v) f then
+    exists am pm, aln_feature fx r f partial = Ok (Some (fv_minus fv, am)) /\
+      Forall2 (cell_column (abs (amap r))) (den am) (den (fmap_of (vlen v) (fv_map fv))) /\
+      projected_map r am = Ok pm /\ den pm = den (fmap_of (vlen v) (fv_map fv))
+  else aln_feature fx r f partial = Ok None.
+Proof. exact aln_feature_spec. Qed.
+
+(** the alignment-level query never raises unless a span ends exactly at the
+    start of the segment the row displays (and never with the boundary repair);
+    a row without residues returns nothing (repair C04-4) *)
+Theorem aln_never_raises : forall fx r f partial,
+  IndelMapSpec.WF (amap r) -> contig (sv (adata r)) ->
+  parent_length (amap r) = vlen (sv (adata r)) -> feat_ok f ->
+  fx_bound fx = true \/ no_span_ends_at (parent_start (sv (adata r))) (f_spans f) ->
+  exists o, aln_feature fx r f partial = Ok o.
+Proof. exact aln_never_raises_lemma. Qed.
+
+(** the hypotheses hold for every row of every alignment view: rows built from
+    gapped strings of equal length, any history of slices and reverse complements *)
+Theorem alignment_rows_invariant : forall ops n rows rows', Forall (ROK n) rows -> hist_ok n ops ->
+  fold_left apply_alop ops (Ok rows) = Ok rows' -> Forall (ROK (hist_len n ops)) rows'.
+Proof. exact alignment_history_rows. Qed.
+
+Theorem alignment_rows_init : forall strs n rows, Forall (fun s => zlen s = n) strs ->
+  mapM (row_of_string KDna) strs = Ok rows -> Forall (ROK n) rows.
+Proof. exact alignment_init_rows. Qed.
+
+Theorem row_hypotheses : forall n r, ROK n r -> 0 < vlen (sv (adata r)) ->
+  IndelMapSpec.WF (amap r) /\ contig (sv (adata r)) /\ parent_length (amap r) = vlen (sv (adata r)) /\
+  zlen (parent (adata r)) = seq_len (sv (adata r)) /\ offset (sv (adata r)) = 0.
+Proof. exact ROK_hyps. Qed.
+
+(** HEADLINE 7: all of it together - every gap layout, every history of
+    alignment slices and reverse complements, every row still displaying
+    residues, every sorted multi-span feature on either strand of that row's
+    sequence: strand, slice of the sequence feature (original residues
+    restricted to the displayed segment), membership, columns, own-row projection *)
+Theorem alignment_view_features : forall fx strs n ops rows r f partial fv,
+  Forall (fun s => zlen s = n) strs -> hist_ok n ops ->
+  fold_left apply_alop ops (mapM (row_of_string KDna) strs) = Ok rows ->
+  In r rows -> 0 < vlen (sv (adata r)) -> spans_ok 0 (f_spans f) ->
+  feature_on_view fx (sv (adata r)) f = View.Ok fv ->
+  let v := sv (adata r) in
+  fv_minus fv = xorb (f_minus f) (is_reversed v) /\
+  get_slice_str v (parent (adata r)) fv = View.Ok (denoted (parent (adata r)) 0 (parent_start v) (parent_stop v) f) /\
+  if db_match partial (parent_start v) (parent_stop v) f then
+    exists am pm, aln_feature fx r f partial = Ok (Some (fv_minus fv, am)) /\
+      Forall2 (cell_column (abs (amap r))) (den am) (den (fmap_of (vlen v) (fv_map fv))) /\
+      projected_map r am = Ok pm /\ den pm = den (fmap_of (vlen v) (fv_map fv))
+  else aln_feature fx r f partial = Ok None.
+Proof. exact alignment_view_features_lemma. Qed.
